@@ -295,11 +295,12 @@ fn gen_group(rng: &mut Rng, t: &Tab) -> Query {
     let mut aggs: Vec<E> = vec![];
     let na = *rng.pick(&[1usize, 1, 2]);
     while aggs.len() < na {
-        let a = match rng.below(6) {
-            0 | 1 => E::Agg(AggFn::CountStar, None),
-            2 => E::Agg(AggFn::Count, Some(Box::new(rng.pick(&data_cols).e.clone()))),
-            3 => E::Agg(AggFn::Sum, Some(Box::new((*rng.pick(&nums)).e.clone()))),
-            4 => E::Agg(AggFn::Min, Some(Box::new((*rng.pick(&nums)).e.clone()))),
+        // COUNT(col) / SUM are rarer: their own defects (C16) make the base query wrong and the case is dropped
+        let a = match rng.below(12) {
+            0..=4 => E::Agg(AggFn::CountStar, None),
+            5 => E::Agg(AggFn::Count, Some(Box::new(rng.pick(&data_cols).e.clone()))),
+            6 => E::Agg(AggFn::Sum, Some(Box::new((*rng.pick(&nums)).e.clone()))),
+            7..=9 => E::Agg(AggFn::Min, Some(Box::new((*rng.pick(&nums)).e.clone()))),
             _ => E::Agg(AggFn::Max, Some(Box::new((*rng.pick(&nums)).e.clone()))),
         };
         push_unique(&mut aggs, a);
@@ -331,7 +332,8 @@ fn gen_join(rng: &mut Rng, t: &Tab, u: &Tab) -> Query {
     let nkeys = *rng.pick(&[1usize, 2, 2, 3]);
     let mut keys: Vec<E> = vec![];
     while keys.len() < nkeys {
-        if rng.chance(2, 10) {
+        // expression items over a join are rare: their own defect (C17) makes the base query wrong
+        if rng.chance(1, 20) {
             if let Some(e) = key_expr(rng, &all) {
                 push_unique(&mut keys, e);
                 continue;
@@ -1189,7 +1191,7 @@ fn null_causal(db: &mut Db, tabs: &[&Tab], twins: &mut NullFree, q: &Query, a0: 
     }
     let q2 = rename_tables(q, &twins.map);
     match run_case(db, &twins.mtables, &q2) {
-        Outcome::Dropped => None,
+        Outcome::Dropped(_) => None,
         Outcome::Pass { .. } => Some(true),
         Outcome::Fail { fails, .. } => Some(fails.first().map(|f| f.0.as_str()) != Some(a0)),
     }
